@@ -258,6 +258,8 @@ def run(ctx) -> None:
             case = {"k": "pair", "platform": platform, **pair}
             if rng.random() < 0.35:
                 case["kwargs"] = {"port_nr": rng.random() < 0.5, "protocol_nr": rng.random() < 0.7}
+            elif platform == "ios" and rng.random() < 0.1:
+                case["standard"] = rng.choice(["top", "bottom", "bottom"])  # mixed kinds: a standard entry on one side
             execute(ctx, case)
             sig = C03._pair_sig(case)
             ans = case.pop("_answer", None)
